@@ -157,6 +157,9 @@ func checkNonce(idToken string, p *LoginGovProvider) (err error) {
 		if rerr != nil {
 			return nil, rerr
 		}
+		if len(pubkeys.Keys) == 0 {
+			return nil, errors.New("no keys in the public key set")
+		}
 		return pubkeys.Keys[0].Key, nil
 	})
 	if err != nil {
